@@ -27,6 +27,7 @@ type C09Case struct {
 	Writers  int    `json:"writers"`  // concurrent writers
 	Sizes    []int  `json:"sizes"`    // payload size per writer (bytes of padding)
 	Class    string `json:"class"`    // string class of the padding
+	StallMs  int    `json:"stallms,omitempty"` // get-stalled: how long the peer takes no bytes
 	Jitter   []int  `json:"jitter"`   // per-write delay seeds (k*20us), cycled
 	Schedule string `json:"schedule"` // optional exact order of write steps for the first writers, e.g. "abab"
 	Rounds   int    `json:"rounds"`
@@ -56,6 +57,14 @@ func genC09(t *rapid.T) C09Case {
 		c.Schedule = rapid.SampledFrom([]string{"abab", "abba", "baab", "aabb", "abcabc", "acbbca", "ababab"}).Draw(t, "schedule")
 	}
 	c.Rounds = rapid.IntRange(1, 3).Draw(t, "rounds")
+	if rapid.IntRange(0, 39).Draw(t, "stalled") == 0 {
+		// a peer that stops reading for seconds: rare, each such case costs its stall in wall time
+		c.Target = "get-stalled"
+		c.StallMs = rapid.SampledFrom([]int{300, 5600, 5600}).Draw(t, "stallms")
+		if c.Writers > 6 {
+			c.Writers = 6
+		}
+	}
 	return c
 }
 
@@ -165,12 +174,80 @@ func padOf(c C09Case, i int) string {
 	return StrSpec{Class: c.Class, N: c.Sizes[i%len(c.Sizes)], Seed: i}.Expand()
 }
 
+// execC09GetStalled: the peer of a listening stream stops taking bytes for several seconds (the flush of one event does
+// not return) while further events are sent to the session: the stalled write is still one writer's business, nobody
+// else touches the stream until it is done, and every message arrives once.
+func execC09GetStalled(c C09Case) *Failure {
+	w := padWorld(ModeSJ, WorldOpt{})
+	defer w.Close()
+	conn, err := w.Connect()
+	if err != nil {
+		return Failf("C09/connect", "%v", err)
+	}
+	var stall atomic.Bool
+	gate := make(chan struct{})
+	lr := StartLive(w.Srv.Handler(), "GET", "http://verif/mcp", map[string]string{"Accept": "text/event-stream", "Mcp-Session-Id": conn.SessionID}, nil, func(kind string, n int) {
+		if kind == "flush" && stall.CompareAndSwap(true, false) {
+			<-gate
+		}
+	})
+	defer lr.PeerGone()
+	if !lr.WaitFlushedHeader(2 * time.Second) {
+		return TimingFailf("C09/get-not-open", "stream did not open")
+	}
+	waitRegistered(w.Srv, 1)
+	stall.Store(true)
+	var wg sync.WaitGroup
+	errs := make([]error, c.Writers+1)
+	send := func(i int) {
+		defer wg.Done()
+		errs[i] = w.Srv.SendNotification(conn.SessionID, "notifications/verif", map[string]interface{}{"nonce": fmt.Sprintf("S%dx", i), "pad": StrSpec{Class: c.Class, N: c.Sizes[i%len(c.Sizes)] % 9000, Seed: i}.Expand()})
+	}
+	wg.Add(1)
+	go send(0) // its flush is the one that stalls
+	time.Sleep(20 * time.Millisecond)
+	for i := 1; i <= c.Writers; i++ {
+		wg.Add(1)
+		go send(i)
+	}
+	time.Sleep(time.Duration(c.StallMs) * time.Millisecond)
+	over := lr.Overlaps
+	close(gate)
+	wg.Wait()
+	time.Sleep(3 * time.Millisecond)
+	where := fmt.Sprintf("GET stream whose peer took no bytes for %d ms during one event's flush, %d more senders meanwhile (class %s)", c.StallMs, c.Writers, c.Class)
+	if over > 0 || lr.Overlaps > 0 {
+		return Failf("C09/get-stream/concurrent-writes", "%s: %d Write / Flush calls on the stream overlapped the stalled flush", where, lr.Overlaps)
+	}
+	seen := map[string]int{}
+	for i, e := range lr.Events() {
+		var m struct {
+			Params struct {
+				Nonce string `json:"nonce"`
+			} `json:"params"`
+		}
+		if err := json.Unmarshal([]byte(e.Data), &m); err != nil || m.Params.Nonce == "" {
+			return Failf("C09/get-stream/torn-event", "%s: event %d does not parse on its own (%v): %.200q", where, i, err, e.Data)
+		}
+		seen[m.Params.Nonce]++
+	}
+	for i := 0; i <= c.Writers; i++ {
+		n := seen[fmt.Sprintf("S%dx", i)]
+		if n > 1 || (errs[i] == nil && n != 1) {
+			return TimingFailf("C09/get-stream/message-multiset", "%s: notification S%dx (send error: %v) recovered %d times from the stream", where, i, errs[i], n)
+		}
+	}
+	return nil
+}
+
 func execC09(c C09Case) *Failure {
 	switch c.Target {
 	case "get-stream":
 		return execC09GetStream(c)
 	case "get-reconnect":
 		return execC09GetReconnect(c)
+	case "get-stalled":
+		return execC09GetStalled(c)
 	case "legacy-sse":
 		return execC09Legacy(c)
 	case "stdio-client":
